@@ -10,10 +10,14 @@ BASE=/tmp/seed-run/$SLOT
 WT=$BASE/repo
 V=$BASE/verif
 mkdir -p $BASE/target $BASE/target-bins
-git -C /repo worktree remove --force $WT 2>/dev/null || true
-rm -rf $WT
-git -C /repo worktree prune
-git -C /repo worktree add -q --detach $WT HEAD
+# git worktree bookkeeping is not safe to run from two slots at once: serialise it
+(
+  flock 9
+  git -C /repo worktree remove --force $WT 2>/dev/null || true
+  rm -rf $WT
+  git -C /repo worktree prune
+  git -C /repo worktree add -q --detach $WT HEAD
+) 9>/tmp/seed-run/.gitlock
 if [ "$PATCH" != "none" ]; then git -C $WT apply "$PATCH"; fi
 rsync -a --delete --exclude 'harness/target' --exclude 'harness/target-bins' --exclude '.git' --exclude 'replays' /verif/ $V/
 mkdir -p $V/harness/target $V/harness/target-bins
@@ -27,5 +31,8 @@ unshare -m sh -c "
   cd /verif && for p in $PROPS; do ./check \$p --tier $TIER || true; done
   for p in $PROPS; do ls replays/\$p 2>/dev/null | head -3; done
 "
-git -C /repo worktree remove --force $WT
-git -C /repo worktree prune
+(
+  flock 9
+  git -C /repo worktree remove --force $WT
+  git -C /repo worktree prune
+) 9>/tmp/seed-run/.gitlock
